@@ -72,28 +72,41 @@ func (g gen) simple(n int, uids []int) string {
 	return g.rng.Pick(flagKeys)
 }
 
-func (g gen) item(n int, uids []int) string {
-	switch g.rng.Intn(10) {
+// key: any search key of the language, nested up to depth d
+func (g gen) key(n int, uids []int, d int) string {
+	if d <= 0 {
+		return g.simple(n, uids)
+	}
+	switch g.rng.Intn(12) {
 	case 0, 1:
-		return "NOT " + g.simple(n, uids)
+		return "NOT " + g.key(n, uids, d-1)
 	case 2, 3:
-		return "OR " + g.simple(n, uids) + " " + g.simple(n, uids)
+		return "OR " + g.key(n, uids, d-1) + " " + g.key(n, uids, d-1)
 	case 4:
 		return "HEADER " + g.rng.Pick([]string{"Subject", "X-Tag", "x-tag", "From", "Nosuch"}) + " " + g.rng.Pick(append(words, `""`, "tagged"))
+	case 5, 6:
+		k := 1 + g.rng.Intn(3)
+		var its []string
+		for j := 0; j < k; j++ {
+			its = append(its, g.key(n, uids, d-1))
+		}
+		return "(" + strings.Join(its, " ") + ")"
 	}
 	return g.simple(n, uids)
 }
 
-// unsupported / malformed programs: must be answered with an error by SEARCH
+func (g gen) item(n int, uids []int) string { return g.key(n, uids, 1+g.rng.Intn(3)) }
+
+// outside the language: incomplete keys (an argument or a sub-key missing, also inside a group), unclosed groups, unknown words
 func (g gen) unsupported(n int, uids []int) string {
-	return g.rng.Pick([]string{"(SEEN)", "(OR SEEN FLAGGED)", "BOGUS", "SEEN BOGUS", "OR (SEEN) FLAGGED", "NOT (SEEN)", "NOT NOT SEEN", "OR SEEN", "OR", "NOT", "OR FROM x", "KEYWORD",
-		"HEADER Subject", "FROM", "LARGER", "OR NOT SEEN FLAGGED", "OR OR SEEN FLAGGED DELETED", "MODSEQ 5", "SEEN (FLAGGED)", "1:2 (DELETED)", "X-GM-RAW hello", "OR SEEN NOT FLAGGED"})
+	return g.rng.Pick([]string{"BOGUS", "SEEN BOGUS", "OR SEEN", "OR", "NOT", "OR FROM x", "KEYWORD", "HEADER Subject", "FROM", "LARGER", "NOT NOT", "OR OR SEEN FLAGGED", "MODSEQ 5",
+		"X-GM-RAW hello", "(SEEN", "SEEN)", "(OR SEEN)", "NOT (FROM)", "OR (SEEN) (NOT)", "(SEEN (FLAGGED)", "OR SEEN NOT", "(BOGUS)", "NOT BOGUS", "(HEADER a)", "OR FLAGGED (KEYWORD)"})
 }
 
 func main() {
 	o, rep := hx.Init("C19")
 	hx.Quiet()
-	rep.Rule = "search programs of 1..3 items generated from the grammar (14 flag keys, KEYWORD/UNKEYWORD, sequence sets and UID sets with ranges, stars, comma lists and out-of-range numbers, LARGER/SMALLER, FROM/TO/CC/BCC/SUBJECT/BODY/TEXT with atoms and quoted strings, HEADER incl. the empty string, six date keys, NOT, OR) plus a stream of unsupported / malformed programs (parenthesised groups, unknown keys, nested NOT/OR, missing arguments), each as SEARCH and as UID SEARCH, against mailboxes of 0..8 messages built by APPEND / COPY / STORE / EXPUNGE histories; distinct by (mailbox, program); non-trivial when the program has a NOT, OR, set, date or substring key"
+	rep.Rule = "search programs of 1..3 keys generated from the RFC 3501 search-key grammar nested to depth 3 (14 flag keys, KEYWORD/UNKEYWORD, sequence sets and UID sets with ranges, stars, comma lists and out-of-range numbers, LARGER/SMALLER, FROM/TO/CC/BCC/SUBJECT/BODY/TEXT with atoms and quoted strings, HEADER incl. the empty string, six date keys, NOT and OR over any keys, parenthesised groups) plus a stream of programs outside the language (incomplete keys, also inside groups, unclosed groups, unknown words), each as SEARCH and as UID SEARCH, against mailboxes of 0..13 messages built by APPEND / COPY / STORE / EXPUNGE histories; distinct by (mailbox, program); non-trivial when the program has a NOT, OR, set, date or substring key"
 	dir, cleanup := hx.WorkDir("c19")
 	defer cleanup()
 	w, err := world.New(dir, "example.com")
@@ -128,7 +141,7 @@ func main() {
 	for bi := 0; bi < nbox && len(rep.Violations) < 3; bi++ {
 		user := fmt.Sprintf("s%d@example.com", bi)
 		c := w.Login(user)
-		n := []int{5, 8, 0, 1, 3, 6}[bi%6]
+		n := []int{5, 13, 0, 1, 3, 8}[bi%6] // 13: UIDs and sequence numbers of different digit counts
 		for i := 0; i < n; i++ {
 			subj := subjects[rng.Intn(len(subjects))]
 			extra := ""
@@ -312,14 +325,6 @@ func main() {
 			}
 			if x.impl == spec {
 				rep.Hit("meets-spec")
-				if !x.uid && x.impl == "bad" && strings.Contains(x.prog, "(") && strings.Count(x.prog, "(") == strings.Count(x.prog, ")") && !strings.Contains(x.prog, "BOGUS") {
-					// a well-formed parenthesised group is part of the criteria language the property names; refusing it is an
-					// error rather than a wrong result, but still not an evaluation
-					nb["F3"]++
-					if nb["F3"] <= 1 {
-						rep.Finding("C19-F3", fmt.Sprintf("parenthesised groups are refused, not evaluated: SEARCH %s -> BAD", x.prog), []string{"prog " + hx.H(x.prog)})
-					}
-				}
 				continue
 			}
 			what := fmt.Sprintf("mailbox %d (%d messages, UIDs %v): %s %s -> implementation %q, specification %q", bi, N, uids, cmd, x.prog, x.impl, spec)
@@ -330,7 +335,7 @@ func main() {
 				if x.uid {
 					nb["F1"]++
 					if nb["F1"] <= 2 {
-						rep.Finding("C19-F1", "UID SEARCH does not refuse programs outside the supported fragment: "+what, []string{"prog " + hx.H(x.prog)})
+						rep.Finding("C19-F1", "UID SEARCH does not refuse programs outside the search-key language: "+what, []string{"prog " + hx.H(x.prog)})
 					}
 				} else {
 					nb["F2"]++
